@@ -13,6 +13,11 @@ for mp in sorted(glob.glob("/verif/seeded/*/meta.json")):
     exits = {c: v["exit"] for c, v in det.items()}
     kinds = set()
     for c, v in det.items():
+        if v.get("counts"):
+            for kname in ("leg", "obligation", "undecided"):
+                if v["counts"].get(kname):
+                    kinds.add(kname)
+            continue
         for l in v.get("lines", []):
             if "VIOLATION" in l:
                 name = l.split("replay=")[1].split("/")[-1]
